@@ -45,6 +45,12 @@ def leaf(rng):
     return ("cond", T.rand_key(rng, kind))
 
 
+def tie_leaf(rng):
+    """few numbers in several spellings ('1', '01', '001'): repeated keys separated by numerically equal, differently spelt ones"""
+    n = rng.choice([1, 2, 7, 501, 502, 901, 950, 2001])
+    return ("cond", "0" * rng.choice([0, 0, 0, 1, 1, 2]) + str(n))
+
+
 def extract_dict(x):
     return {"hint": list(x.hint_keys), "fc": list(x.format_constraint_keys), "rc": list(x.requirement_constraint_keys),
             "pkg": list(x.package_keys), "time": list(x.time_condition_keys)}
@@ -67,7 +73,7 @@ def run(ctx: Ctx) -> None:
     from ahbicht.expressions.condition_expression_parser import extract_categorized_keys, extract_categorized_keys_from_tree
     from ahbicht.models.categorized_key_extract import CategorizedKeyExtract
 
-    ctx.rule = ("all numbers 0..3000 (exhaustive, by extraction) + boundary neighbours with leading zeros + random large numbers; random expressions for "
+    ctx.rule = ("all numbers 0..3000 (exhaustive, by extraction) + boundary neighbours with leading zeros + random large numbers; random expressions (30% over a few numbers in several zero-padded spellings, so that repeats are separated by numeric ties) for "
                 "extraction / sanitising / union; generated results for all m<=3/4 requirement and n<=3/4 format keys compared with the product as multisets")
     ctx.coverage["generated_changed"] = extract.regenerate(["NodeTypes"])
     ok = ctx.lean_build(MODULES)
@@ -102,7 +108,7 @@ def run(ctx: Ctx) -> None:
     # --- extraction ---------------------------------------------------------------------------------------
     rows = []
     for _ in range(ctx.pick(300, 3000)):
-        e = T.rand_expr(rng, rng.randint(1, 9), leaf)
+        e = T.rand_expr(rng, rng.randint(1, 9), tie_leaf if rng.random() < 0.3 else leaf)
         if rng.random() < 0.3:  # force repetitions
             e = (rng.choice([T.AND, T.OR]), e, rng.choice([e, T.rand_expr(rng, 2, leaf)]))
         tree = T.to_lark(e)
